@@ -7,6 +7,7 @@ import ChessVerif.Spec.Small
 import ChessVerif.Spec.Game
 import ChessVerif.Geom
 import ChessVerif.CodeTables
+import ChessVerif.Spec.Plausible
 /-
 The per-line work of the driver: recompute the implementation's answer with the Model
 (findings of kind `M`, "model ≠ implementation") and evaluate the Spec oracle on the
@@ -190,18 +191,8 @@ def opLEGAL (args res : List String) : Findings := Id.run do
 def countMen (p : Pos) (c : Color) : Nat := count p (·.2 == c)
 def countPawns (p : Pos) (c : Color) : Nat := count p (· == (.pawn, c))
 
-/-- the bounds the properties put on the recorded en-passant state (C02, C06): `q` is the successor the rules
-give (mark after *every* double push), `rec` what the library recorded.  Any policy between "a legal capture
-exists" and "an enemy pawn stands beside the pushed pawn" is admissible. -/
-def epPolicy (q : Pos) (rec : Option Sq) : Option String :=
-  match rec with
-  | some s =>
-    if q.ep != some s then some "en-passant recorded without a double push to that square"
-    else if (norm q).ep != some s then some "en-passant recorded although no enemy pawn stands beside the pushed pawn"
-    else none
-  | none =>
-    if q.ep.isSome ∧ (legalMoves q).any (isEnPassant q) then some "a legal en-passant capture exists but none is recorded"
-    else none
+-- `epPolicy` (the bounds the properties put on the recorded en-passant state) is `Chess.epPolicy`, `Spec/Plausible.lean`;
+-- `C02_policy_within_bounds` proves that the library's own policy `norm` is always inside them.
 
 def opMAKE (args res : List String) : Findings := Id.run do
   let mut fs : Findings := #[]
